@@ -145,7 +145,7 @@ func validateMessageDeclarations(file *filedesc.File, ms []filedesc.Message, mds
 				if f.Cardinality() != protoreflect.Optional {
 					return errors.New("message field %q under proto3 optional semantics must have optional cardinality", f.FullName())
 				}
-				if f.ContainingOneof() != nil && f.ContainingOneof().Fields().Len() != 1 {
+				if f.ContainingOneof() == nil || f.ContainingOneof().Fields().Len() != 1 {
 					return errors.New("message field %q under proto3 optional semantics must be within a single element oneof", f.FullName())
 				}
 			}
